@@ -953,9 +953,7 @@ class Ctx:
         if isinstance(v, Ref) and ops._array_cell(self, v) is not None and isinstance(e.op, (ast.USub, ast.UAdd)):
             # element-wise on an array: a new array
             items = [ops.unary(e.op, x) if isinstance(x, Sym) else (-x if isinstance(e.op, ast.USub) else +x) for x in ops._array_cell(self, v).items]
-            r = self.new_list(items)
-            self.cell(r).is_array = True
-            return r
+            return ops.make_array(self, items)
         if isinstance(e.op, ast.USub):
             return -v
         if isinstance(e.op, ast.UAdd):
